@@ -306,7 +306,7 @@ def strip_job_line(raw):
 
 
 def run_job(lines, corrupt=(), holds=None, deadline=20.0, pauses=(), instant=False, next_jobs=(), corrupt_open=(), mode="serial",
-            greeting=None):
+            greeting=None, streaming=False):
     """Stream `lines` with the real printcore (then, on the same connection, each job of `next_jobs`). Returns the trace.
     mode "socket": the same firmware behind a TCP connection (printcore.connect("host:port")), replies arriving in fragments."""
     from gscrib.printrun import gcoder
@@ -321,6 +321,8 @@ def run_job(lines, corrupt=(), holds=None, deadline=20.0, pauses=(), instant=Fal
     with (patched(hub) if mode == "serial" else patched_socket(hub)):
         p = printcore()
         p.loud = False
+        if streaming:
+            p.tcp_streaming_mode = True       # over TCP: do not wait for each ok (the transport does the flow control)
         try:
             p.connect("/mocked/port" if mode == "serial" else "127.0.0.1:8000", 115200)
             t0 = time.monotonic()
@@ -401,7 +403,7 @@ def run_job(lines, corrupt=(), holds=None, deadline=20.0, pauses=(), instant=Fal
         e.setdefault("job", [])
         e.pop("i", None)
     return {"meta": {"corrupt": sorted(corrupt), "holds": {str(k): v for k, v in (holds or {}).items()}, "pauses": sorted(pauses),
-                     "instant": bool(instant), "jobs": 1 + len(next_jobs), "corrupt_open": sorted(corrupt_open), "mode": mode},
+                     "instant": bool(instant), "jobs": 1 + len(next_jobs), "corrupt_open": sorted(corrupt_open), "mode": mode, "streaming": bool(streaming)},
             "job": [list(x.encode("ascii")) for x in job], "raw": lines, "ev": ev}
 
 
